@@ -31,8 +31,9 @@ type c20Op struct {
 }
 
 type c20Case struct {
-	Ops  []c20Op `json:"ops"`
-	Kind string  `json:"kind"`
+	Ops     []c20Op  `json:"ops"`
+	Environ []string `json:"environ,omitempty"` // NAME=value entries put into the process environment before NewExecEnv
+	Kind    string   `json:"kind"`
 }
 
 var c20Names = []string{"a", "A", "_b1", "IFS", "HOME", "@", "*", "#", "?", "-", "$", "!", "0", "1", "2", "10", "01", "00", "000", "99999999999999999999", "+1"}
@@ -216,10 +217,30 @@ func c20Arith(name, form string) (*ra.Expr, string) {
 }
 
 func c20Exec(c *core.Ctx, cs c20Case) {
+	for _, kv := range cs.Environ {
+		k, v, _ := strings.Cut(kv, "=")
+		os.Setenv(k, v)
+		defer os.Unsetenv(k)
+	}
 	env := interp.NewExecEnv("sh", "p1", "p2")
 	env.Aliases["ll"] = "ls -l"
 	m := &c20Model{vars: map[string]string{}, args: []string{"sh", "p1", "p2"}}
 	env.Walk(func(v interp.Var) { m.vars[v.Name] = v.Value })
+	// the environment only provides ordinary variables
+	for n := range m.vars {
+		if isSpecial(n) || isPositional(n) {
+			c.Violation("environ", fmt.Sprintf("environment %q", cs.Environ), "special and positional parameters reflect Args / Opts only; Walk enumerates ordinary variables", fmt.Sprintf("Walk reports %q=%q right after NewExecEnv", n, m.vars[n]), "")
+			return
+		}
+	}
+	for _, kv := range cs.Environ {
+		if k, v, _ := strings.Cut(kv, "="); !isSpecial(k) && !isPositional(k) && k != "IFS" {
+			if got, ok := m.vars[k]; !ok || got != v {
+				c.Violation("environ", fmt.Sprintf("environment %q", cs.Environ), fmt.Sprintf("%s=%q imported", k, v), fmt.Sprintf("%q (present=%v)", got, ok), "")
+				return
+			}
+		}
+	}
 	key := func(i int) string {
 		var ss []string
 		for _, o := range cs.Ops[:i+1] {
@@ -437,6 +458,12 @@ func c20RandOp(r *rand.Rand) c20Op {
 
 func c20Gen(c *core.Ctx) {
 	alpha := c20Alphabet()
+	// hostile process environments
+	for i, e := range [][]string{{"1=from-env"}, {"@=x", "*=y"}, {"#=9", "?=1", "-=z", "!=b", "$=7", "0=n"}, {"10=z", "A=fromenv"}, {"a=5", "_b1=", "2=two"}} {
+		for k := 0; k < len(alpha); k++ {
+			core.Do(c, c20Case{Environ: e, Ops: []c20Op{alpha[k], alpha[(k+i+1)%len(alpha)]}, Kind: "environ"}, c20Exec)
+		}
+	}
 	maxLen := c.Pick(3, 4)
 	for n := 1; n <= maxLen; n++ {
 		idx := make([]int, n)
